@@ -44,11 +44,23 @@ def build(prog):
     return ref, text, M
 
 
-def fresh(M, ref, n, bases, shift=0, origin=100):
+def fresh(M, ref, n, bases, shift=0, origin=100, history=None):
     data = R.make_data(ref.names, n, bases)
     if shift:
         for k in data:
             data[k] = data[k] + 0.0
+    if history in ('reindexed-shorter', 'reindexed-longer'):
+        # the object has a past: it was solved on a span of another length and then reindexed to this one; afterwards
+        # every series (and the solution record) is put back to the fresh state by whole-series assignment
+        n0 = n + 2 if history == 'reindexed-shorter' else max(M.LAGS + M.LEADS + 1, n - 1)
+        old = M(range(origin - 1, origin - 1 + n0), **{k: np.resize(v, n0).astype(float) for k, v in data.items()})
+        R.quiet_call(attempt, old.solve, max_iter=2, failures='ignore', errors='ignore')
+        m = old.reindex(range(origin, origin + n))
+        for k, v in data.items():
+            m[k] = [float(x) for x in v]
+        m.status = '-'
+        m.iterations = -1
+        return m, data
     return M(range(origin, origin + n), **{k: v.copy() for k, v in data.items()}), data
 
 
@@ -96,7 +108,7 @@ def check_solve_t(case):
     for t, ttype in positions:
         T = t + n if t < 0 else t
         feasible = L <= T <= n - 1 - K
-        m, data = fresh(M, ref, n, bases)
+        m, data = fresh(M, ref, n, bases, history=case.get('history'))
         if ttype == 'status-solved':
             m.status = '.'
             m.iterations = 1
@@ -299,6 +311,7 @@ def strategy(**kw):
             'prog': G.programs(**args),
             'extra': st.integers(0, 4),
             'victim': st.integers(0, 2), 'origin': st.sampled_from([100, 0, 0, -1, -2]), 'rep': tapes(),
+            'history': st.sampled_from([None, None, None, 'reindexed-shorter', 'reindexed-longer']),
             'bases': st.lists(st.lists(st.sampled_from([1.0, 2.0, 0.5, 4.0, 3.0, 0.25, 1.5]), min_size=2, max_size=4), min_size=1, max_size=3),
         })
     return make
@@ -308,6 +321,8 @@ def gen_enumerated(max_nodes):
     def gen():
         for i, prog in enumerate(G.enumerate_programs(max_nodes)):
             yield {'prog': prog, 'extra': i % 3}
+            if i % 7 == 3:
+                yield {'prog': prog, 'extra': i % 3, 'history': ('reindexed-shorter', 'reindexed-longer')[(i // 7) % 2]}
     return gen
 
 
